@@ -1,43 +1,52 @@
-(* Props/C03.v — Written files follow the published on-disk layout.  (interim: root layout and the
-   refinement of the writer; the per-primitive reference encoder theorem from Proofs/LayoutProofs.v is
-   added when that library is complete) *)
-From NIR Require Import Model.Serial Proofs.SerialProofs.
+(* Props/C03.v — Written files follow the published on-disk layout. *)
+From NIR Require Import Model.Serial Proofs.SerialProofs Proofs.LayoutProofs.
+From Coq Require Import Permutation.
 
-(* root: exactly a string dataset 'version' (= library version, returned by read_version) and a group 'node' *)
+(* `encode_ref` / `encode_file` (Proofs/LayoutProofs.v) is an INDEPENDENT reference encoder written from
+   docs/source/primitives.md and the shipped artefacts: a per-primitive table of documented parameter
+   names (`doc_params`), never the generic dictionary walk. *)
+
+(* the documented parameter table matches the dataclass fields of the source (regenerated table):
+   a field added, removed or renamed in the source breaks this Qed *)
+Theorem c03_doc_table_matches_source : forall k, k <> KGraph -> table_params k = Some (doc_params k).
+Proof. exact doc_params_match_source. Qed.
+
+(* root: exactly 'version' (= library version, what read_version returns) and the group 'node' *)
 Theorem c03_root : forall g t, write g = Ok t ->
-  exists m, t = H5Group [("version", H5Str "vlen-utf-8" nir_version); ("node", H5Group m)] /\
-            read_version t = Ok nir_version.
-Proof.
-  intros g t H. unfold write in H. apply bind_ok in H as (ms & _ & Ht). inversion Ht. eexists. split; reflexivity.
-Qed.
+  exists m, t = H5Group [("version", H5Str "vlen-utf-8" nir_version); ("node", H5Group m)]
+            /\ read_version t = Ok nir_version.
+Proof. exact file_root. Qed.
 
-(* every member of the node group comes from an entry of the dictionary form: nothing else is present *)
-Theorem c03_nothing_else : forall kv kv' k v',
-  norm_entries kv = Ok kv' -> In (k, v') kv' -> exists v, In (k, v) kv /\ norm_val v = Ok v'.
-Proof. exact norm_entries_from. Qed.
+(* a node: 'type' + one dataset per documented parameter + the class-specific entry + 'metadata' iff
+   non-empty — and NOTHING ELSE (the written members are a permutation of the reference members) *)
+Theorem c03_leaf_layout : forall fuel k fs tin tout ms,
+  leaf_ok k fs ->
+  write_rec fuel (to_dict (Leaf k fs tin tout)) = Ok ms ->
+  exists ref, encode_ref (Leaf k fs tin tout) = Ok ref /\ Permutation ms ref.
+Proof. exact write_is_reference_layout_leaf. Qed.
 
-(* strings are stored so that they decode to the same text; the 'type' tag names the primitive *)
-Theorem c03_type_tag : forall n, In ("type", VStr (kind_name (node_kind n))) (to_dict n).
-Proof. exact to_dict_type. Qed.
+(* the whole file, graphs nested to any depth *)
+Theorem c03_file_layout : forall g t,
+  write g = Ok t -> layout_ok g -> exists r, encode_file g = Ok r /\ h5_equiv t r.
+Proof. exact write_is_reference_file. Qed.
 
-(* parameters keep their dtype and shape (arrays are stored as themselves) *)
-Theorem c03_param_dtype_shape : forall kv kv' k dt sh tok i,
-  norm_entries kv = Ok kv' -> In (k, VArr dt sh tok i) kv -> sh <> [] -> In (k, VArr dt sh tok i) kv'.
-Proof. exact arrays_survive. Qed.
+(* every node produced by a constructor has exactly the documented fields (+ metadata) *)
+Theorem c03_constructed_nodes_have_documented_fields : forall k args k' fs tin tout,
+  construct k args = Ok (Leaf k' fs tin tout) -> keys fs = doc_params k ++ ["metadata"].
+Proof. exact constructed_leaf_keys. Qed.
 
-(* edges: n-by-2 strings in edge order *)
+(* edges: n-by-2 strings in edge order (an empty dataset when there are none: c04_empty_edges) *)
 Theorem c03_edges : forall es v',
   norm_val (VList (map (fun e => VTuple [VStr (fst e); VStr (snd e)]) es)) = Ok v' -> edge_rows v' = Ok es.
 Proof. exact edges_round_trip. Qed.
 
-(* empty metadata is skipped, non-empty metadata sits under a 'metadata' group *)
-Example c03_metadata_group :
-  norm_entries [("metadata", VDict [])] = Ok [] /\
-  norm_entries [("metadata", VDict [("k", VStr "v")])] = Ok [("metadata", VDict [("k", VStr "v")])].
-Proof. split; reflexivity. Qed.
+(* non-vacuity: a concrete Input - Scale - Output file, both encodings computed *)
+Example c03_example : layout_ok ex_graph.
+Proof. exact ex_graph_layout_ok. Qed.
 
+Print Assumptions c03_doc_table_matches_source.
 Print Assumptions c03_root.
-Print Assumptions c03_nothing_else.
-Print Assumptions c03_type_tag.
-Print Assumptions c03_param_dtype_shape.
+Print Assumptions c03_leaf_layout.
+Print Assumptions c03_file_layout.
+Print Assumptions c03_constructed_nodes_have_documented_fields.
 Print Assumptions c03_edges.
